@@ -233,6 +233,7 @@ impl Model {
             Recipe::Fold(v) => RKind::Fold(v.iter().map(o).collect()),
             Recipe::DependOn(a, b) => RKind::DependOn(o(a), o(b)),
             Recipe::Zip(a, b) => RKind::Zip(o(a), o(b)),
+            Recipe::Xp(a) => RKind::Map1(Fn1::Plain(F1::Inc), o(a)),
             Recipe::Bind { lhs, even, odd } => RKind::Bind {
                 lhs: o(lhs),
                 even: even.clone(),
